@@ -313,6 +313,37 @@ inline void Run(const Args& args, Result& res) {
                                 }
                         }
                 }
+                // ---- clause 1c: the loop state as a cluster: single-instruction repeat x block repeat x where the block ends, for every opcode
+                // (the sequencer's rep and bkrep bookkeeping interact on the same fetch; one-field deviations keep them apart)
+                if (!capped) {
+                    const VState& b0 = c.bases[0].second;
+                    std::vector<VState> loops;
+                    for (int rep = 0; rep < 2; ++rep)
+                        for (u16 repc : {(u16)0, (u16)2})
+                            for (int depth = 0; depth < 3; ++depth)
+                                for (int endk = 0; endk < 3; ++endk)
+                                    for (u16 lc : {(u16)0, (u16)3}) {
+                                        if (depth == 0 && (endk || lc))
+                                            continue;
+                                        if (!rep && repc)
+                                            continue;
+                                        if (!rep && depth == 0)
+                                            continue;
+                                        VState st = b0;
+                                        st.rep = (u16)rep, st.repc = repc;
+                                        st.lp = depth > 0, st.bcn = (u16)depth;
+                                        st.bk[0] = {b0.pc - 0x40, b0.pc + 0x40, 1, 0};
+                                        if (depth)
+                                            st.bk[depth - 1] = {b0.pc - 3, b0.pc + (endk == 0 ? 0 : endk == 1 ? 1 : 5), lc, 0};
+                                        loops.push_back(st);
+                                    }
+                    for (u32 op = idx; op < 0x10000; op += cnt) {
+                        DecodeInfo di;
+                        c.ref.api->decode((u16)op, &di);
+                        for (auto& st : loops)
+                            sw.One((u16)op, 0x6420, di.need_expansion, st, 0, {-1, 0}, {-1, 0}, di, 0);
+                    }
+                }
                 blk.counters[0] = done_ops;
                 blk.counters[1] = sw.ref_incomplete;
                 u64 clause1_evals = local.evaluations;
@@ -372,7 +403,7 @@ inline void Run(const Args& args, Result& res) {
                    "draws) produce vectors that are loaded as test_verifier does and run: no abort, pc = 1+NeedExpansion, data accesses only "
                    "inside the two compared windows; distinct = distinct non-trivial (opcode, result) pairs + distinct generated vectors",
                    ss.items.size(), th ? " on all bases" : " on base 0, bit/mode deviations on two more bases");
-    res.bound = Fmt("all 65536 opcodes; %zu states per opcode; addressing cluster: 18 modulo values x 128 steps x 16 mode combinations x 6 positions x 3 registers x 6 stepping instructions; generator: %zu default answers, 1-deviations%s", ss.items.size(), K.size(),
+    res.bound = Fmt("all 65536 opcodes; %zu states per opcode; addressing cluster: 18 modulo values x 128 steps x 16 mode combinations x 6 positions x 3 registers x 6 stepping instructions; loop cluster: every opcode x 52 rep/bkrep state combinations; generator: %zu default answers, 1-deviations%s", ss.items.size(), K.size(),
                     th ? ", 2-deviations over the last 24 draws" : "");
     res.assumptions = {"the frozen reference in /verif/ref (origin and sha256 in ref/ORIGIN, ref/SHA256SUMS) is the hardware-validated semantics",
                        "states outside the declared alphabet are not visited; prpage fixed at 0 (C18 covers the rest)",
